@@ -89,12 +89,12 @@ Proof.
 Qed.
 
 Theorem prov_terminates : forall nv P F fuel,
-    safe P = true -> known_C05_varcmp P = false -> (length (cube (consts P F)) < fuel)%nat -> prov_bool_run nv fuel P F <> None.
+    safe P = true -> (length (cube (consts P F)) < fuel)%nat -> prov_bool_run nv fuel P F <> None.
 Proof.
-  intros nv P F fuel HS HV Hf. unfold prov_bool_run.
+  intros nv P F fuel HS Hf. unfold prov_bool_run.
   pose proof (cube_length_mono _ _ (consts_filter_length no_neg P F)) as Hm.
   assert (T : semi_run nv fuel (filter no_neg P) F <> None).
-  { apply (semi_terminates nv (filter no_neg P) F (safe_pos P HS) (varcmp_filter no_neg P HV)). lia. }
+  { apply (semi_terminates nv (filter no_neg P) F (safe_pos P HS)). lia. }
   unfold semi_run in T. destruct (infer_with_strategy (semi_round nv (filter no_neg P)) fuel 0%nat F) as [[all new] |]; [| congruence].
   destruct (filter (fun r => negb (no_neg r)) P); discriminate.
 Qed.
